@@ -41,10 +41,48 @@ type fsop struct {
 	raw []byte
 }
 
+// fault is a scripted I/O fault that does not kill the process: while armed, the next
+// matching call on a file of channel directory Key fails. A data-file Write stores only
+// the first J bytes and returns an error (short write, disk full); an index Truncate or
+// WriteAt returns an error without touching the file.
+type fault struct {
+	Key  uint32 `json:"key"`
+	File string `json:"file"` // data | index
+	Call string `json:"call"` // write | writeat | trunc
+	J    int    `json:"j"`
+}
+
+var errInjected = fmt.Errorf("injected I/O fault: no space left on device")
+
 type rec struct {
-	mu  sync.Mutex
-	mem *xfs.MemFS
-	log []fsop
+	mu    sync.Mutex
+	mem   *xfs.MemFS
+	log   []fsop
+	armed *fault
+	fired int
+}
+
+// hit reports (and disarms) an armed fault matching this call. Caller holds r.mu.
+func (r *rec) hit(path, call string) *fault {
+	f := r.armed
+	if f == nil || f.Call != call {
+		return nil
+	}
+	dir, name := "", path
+	if i := strings.Index(path, "/"); i >= 0 {
+		dir, name = path[:i], path[i+1:]
+	}
+	if dir != strconv.Itoa(int(f.Key)) {
+		return nil
+	}
+	isIndex := name == "index.domain"
+	isData := strings.HasSuffix(name, ".domain") && !isIndex && name != "counter.domain"
+	if (f.File == "index" && !isIndex) || (f.File == "data" && !isData) {
+		return nil
+	}
+	r.armed = nil
+	r.fired++
+	return f
 }
 
 type recFS struct {
@@ -140,7 +178,23 @@ type recFile struct {
 func (f *recFile) Write(p []byte) (int, error) {
 	f.r.mu.Lock()
 	defer f.r.mu.Unlock()
+	var injected error
+	if len(p) > 1 {
+		if ft := f.r.hit(f.path, "write"); ft != nil {
+			j := ft.J
+			if j < 1 {
+				j = 1
+			}
+			if j >= len(p) {
+				j = len(p) - 1
+			}
+			p, injected = p[:j], errInjected
+		}
+	}
 	n, err := f.File.Write(p)
+	if err == nil {
+		err = injected
+	}
 	if n > 0 {
 		f.r.log = append(f.r.log, fsop{K: "write", P: f.path, Off: f.wpos, raw: append([]byte(nil), p[:n]...)})
 		f.wpos += int64(n)
@@ -151,6 +205,9 @@ func (f *recFile) Write(p []byte) (int, error) {
 func (f *recFile) WriteAt(p []byte, off int64) (int, error) {
 	f.r.mu.Lock()
 	defer f.r.mu.Unlock()
+	if ft := f.r.hit(f.path, "writeat"); ft != nil {
+		return 0, errInjected
+	}
 	n, err := f.File.WriteAt(p, off)
 	if err == nil {
 		f.r.log = append(f.r.log, fsop{K: "writeat", P: f.path, Off: off, raw: append([]byte(nil), p[:n]...)})
@@ -161,6 +218,9 @@ func (f *recFile) WriteAt(p []byte, off int64) (int, error) {
 func (f *recFile) Truncate(n int64) error {
 	f.r.mu.Lock()
 	defer f.r.mu.Unlock()
+	if ft := f.r.hit(f.path, "trunc"); ft != nil {
+		return errInjected
+	}
 	err := f.File.Truncate(n)
 	if err == nil {
 		f.r.log = append(f.r.log, fsop{K: "trunc", P: f.path, Off: n})
@@ -219,6 +279,7 @@ type op struct {
 	A      int64    `json:"a"`
 	B      int64    `json:"b"`
 	Single bool     `json:"single"`
+	Fault  *fault   `json:"fault"`
 }
 
 type followGroup struct {
@@ -662,7 +723,24 @@ func runCase(c tcase) (res result) {
 			}
 		case "write":
 			if w := writers[o.W]; w != nil {
+				if o.Fault != nil {
+					r.mu.Lock()
+					r.armed, r.fired = o.Fault, 0
+					r.mu.Unlock()
+				}
 				_, e = w.Write(frameFor(wkeys[o.W], isIndex, o.Stamps))
+				if o.Fault != nil {
+					r.mu.Lock()
+					fired := r.fired
+					r.armed = nil
+					r.mu.Unlock()
+					if fired != 1 {
+						e = nil // shows as a missing error: the scripted fault did not fire
+					}
+					// cesium.Writer closes itself on the first error it reports
+					_ = w.Close()
+					delete(writers, o.W)
+				}
 			} else {
 				e = fmt.Errorf("no writer")
 			}
